@@ -296,6 +296,12 @@ class Run(object):
             if not pos:
                 gp = np_rng('xpat', self.plan['xseed'])
                 for i_, pat in enumerate(self.plan.get('xpat', [])[:3]):
+                    if pat == 'unit_norm' and op.is_functional:
+                        # an indicator evaluated exactly on the boundary of
+                        # its set is 0 or inf depending on the last bit of
+                        # the norm, which depends on the memory layout
+                        # (thorough seed 24): not a statement about calls
+                        continue
                     if pat != 'rand':
                         _pattern(self.xs[i_], pat, gp)
                         self.ctx.fired('xpattern-' + pat)
@@ -922,12 +928,18 @@ def _numpy_out_defect(name, x, op, o):
             return False
         with np.errstate(all='ignore'):
             want = uf(*ins)
-            with seams.allocator('zero'):
-                r2 = SP.relayout(op.range.element(), o.get('olay', 'C'))
-            arr = elem_arrays(r2)[0]
-            arr[...] = np.ones((), dtype=arr.dtype)
-            uf(*ins, out=arr)
-        return not np.array_equal(arr, want.astype(arr.dtype), equal_nan=True)
+            # (two prefills: entries NumPy fails to write keep the prefill,
+            # which may happen to be the right answer)
+            for pre in (1, 0):
+                with seams.allocator('zero'):
+                    r2 = SP.relayout(op.range.element(), o.get('olay', 'C'))
+                arr = elem_arrays(r2)[0]
+                arr[...] = np.full((), pre, dtype=arr.dtype)
+                uf(*ins, out=arr)
+                if not np.array_equal(arr, want.astype(arr.dtype),
+                                      equal_nan=True):
+                    return True
+        return False
     except Exception:
         return False
 
